@@ -90,6 +90,23 @@ def run(ctx):
             if lvl == 1 and be == "ref":
                 for l in lines[20:24]:
                     ctx.sample(dict(backend=be, level=lvl, op=l[:160]))
+    # fiat by translation: the programs re-extracted from fp_p*.c (interpreter) vs the real fiat functions vs the generic model
+    for lvl in (1, 3, 5):
+        if ("ref", lvl) in exes:
+            L = G.LEVELS[lvl]
+            fl = G.fiat_lines(ctx.rng.fork("c07:fiat:%d" % lvl), L, 500 if quick else 12000, hist, ophist)
+            run_config(ctx, exes, "ref", lvl, fl, "fiat-programs")
+            sel = [l for l in fl if l.split()[0] in G.FIAT_TO_FP]
+            interp = G.run_model("gf %d ref " % lvl, sel)
+            model = G.run_model("gf %d ref " % lvl, [" ".join([G.FIAT_TO_FP[l.split()[0]]] + l.split()[1:]) for l in sel])
+            bad = [dict(op=l[:200], interpreter=a, model=b) for l, a, b in zip(sel, interp, model) if a != b]
+            ctx.obligation("fiat programs (SqiGen.Fiat%d, interpreter) = generic Montgomery model, lvl%d (%d calls)" % (lvl, lvl, len(sel)),
+                           not bad, json.dumps(bad[:3])[:500])
+            if bad:
+                ctx.violation("drift:fiat-vs-model:lvl%d:%s" % (lvl, bad[0]["op"].split()[0]),
+                              "the translated fiat program and the generic Montgomery model disagree (the fiat text no longer matches the model the theorems are about)",
+                              dict(level=lvl, op_line=bad[0]["op"], interpreter=bad[0]["interpreter"], model=bad[0]["model"],
+                                   broken_obligation="fiat programs = generic model lvl%d" % lvl), found=False)
     for lvl in (1, 3, 5):
         if ("bw", lvl) in exes:
             G.gcd_sweep(ctx, exes[("bw", lvl)], G.LEVELS[lvl], "bw", thorough=not quick)
